@@ -728,6 +728,22 @@ def r29_consuming_for(text, base_line=0):
         text = text[:m.start()] + new + text[m.end():]
 
 
+def r30_rev_take_collect(text, base_line=0):
+    """R30: `let V: Vec<&T> = E.iter().rev().take(N).collect();` -> `let mut V: Vec<&T> = Vec::new(); for __r in 0..min(N, E.len()) { V.push(&E[E.len() - 1 - __r]); }`"""
+    log = []
+    pat = re.compile(r"let\s+(\w+)\s*:\s*(Vec<&\w+>)\s*=\s*(\w+)\.iter\(\)\.rev\(\)\.take\(([^()]+(?:\([^()]*\))?[^()]*)\)\.collect\(\);", re.S)
+    while True:
+        m = pat.search(text)
+        if not m:
+            return text, log
+        v, ty, e, n = m.groups()
+        n = " ".join(n.split())
+        new = ("let mut %s: %s = Vec::new(); let __n = %s; for __r in 0..(if __n < %s.len() { __n } else { %s.len() }) { %s.push(&%s[%s.len() - 1 - __r]); }"
+               % (v, ty, n, e, e, v, e, e)) + "\n" * m.group(0).count("\n")
+        log.append("R30 line %d: `%s` -> `%s`" % (base_line + text.count("\n", 0, m.start()), " ".join(m.group(0).split()), new.strip()))
+        text = text[:m.start()] + new + text[m.end():]
+
+
 def r21_to_owned(text, base_line=0):
     """R21: `.to_owned()` -> `.clone()` (identical for a `Clone` type; vstd specifies `Clone`)"""
     log = []
@@ -745,9 +761,9 @@ REWRITES = {
     "R1": r1_compound_assign, "R2": r2_unary_minus, "R3": r3_scale_call, "R6": r6_for_with_continue,
     "R7": r7_isqrt, "R8": r8_step_by, "R9": r9_consts, "R10": r10_tail_continue,
     "R12": r12_enumerate, "R15": r15_iter, "R16": r16_map_index, "R17": r17_for_in_ref_vec, "R18": r18_assert_eq_shape,
-    "R19": r19_last_unwrap, "R20": r20_range_enumerate, "R21": r21_to_owned, "R22": r22_map_collect, "R23": r23_slice_iter, "R24": r24_name_wildcard_loop, "R25": r25_par_map_collect, "R26": r26_zip_iter_mut, "R27": r27_sum_f32, "R28": r28_as_f32, "R29": r29_consuming_for, "R13": r13_panic_allowed, "R14": r14_panic_forbidden,
+    "R19": r19_last_unwrap, "R20": r20_range_enumerate, "R21": r21_to_owned, "R22": r22_map_collect, "R23": r23_slice_iter, "R24": r24_name_wildcard_loop, "R25": r25_par_map_collect, "R26": r26_zip_iter_mut, "R27": r27_sum_f32, "R28": r28_as_f32, "R29": r29_consuming_for, "R30": r30_rev_take_collect, "R13": r13_panic_allowed, "R14": r14_panic_forbidden,
 }
-ORDER = ["R18", "R13", "R14", "R16", "R25", "R26", "R29", "R27", "R28", "R20", "R22", "R23", "R24", "R12", "R15", "R17", "R19", "R21", "R10", "R8", "R6", "R9", "R7", "R3", "R1", "R2"]
+ORDER = ["R18", "R13", "R14", "R16", "R25", "R26", "R29", "R30", "R27", "R28", "R20", "R22", "R23", "R24", "R12", "R15", "R17", "R19", "R21", "R10", "R8", "R6", "R9", "R7", "R3", "R1", "R2"]
 
 
 def apply_rewrites(text, names, base_line):
@@ -993,7 +1009,7 @@ def generate(template_path, repo, canary=False, contracts_dir=None, exclude=None
             continue
         if s.startswith("//@body "):
             spec = parse_kv(s[len("//@body "):])
-            loop_inv, inserts, skips, outlines, types = {}, [], [], [], []
+            loop_inv, inserts, skips, outlines, types, assumed = {}, [], [], [], [], []
             j = i + 1
             while tl[j].strip() != "//@endbody":
                 d = tl[j].strip()
@@ -1006,6 +1022,11 @@ def generate(template_path, repo, canary=False, contracts_dir=None, exclude=None
                         k += 1
                     loop_inv[n] = subst("\n".join(buf))
                     j = k + 1
+                    continue
+                m = re.match(r'//@assume-region\s+/(.+?)/\.\./(.+?)/\s*(?:#(\d+))?\s+call="(.*?)"\s+why="(.*)"$', d)
+                if m:
+                    assumed.append((m.group(1), m.group(2), int(m.group(3) or 1), m.group(4), m.group(5)))
+                    j += 1
                     continue
                 m = re.match(r"//@type\s+(\w+)\s*=\s*(.+)$", d)
                 if m:
@@ -1084,6 +1105,19 @@ def generate(template_path, repo, canary=False, contracts_dir=None, exclude=None
                 G.units[unit]["drops"].append("outline: lines %d-%d (the region verified by unit %s) replaced by a call to that unit's function `%s`"
                                               % (first_line + text.count("\n", 0, s0), first_line + text.count("\n", 0, e0), ou, call))
                 text = text[:s0] + call + "\n" * text[s0:e0].count("\n") + text[e0:]
+            # `//@assume-region /re1/../re2/ [#k] call=".." why=".."`: a statement region is replaced by a call to an `external_body`
+            # function of the template whose contract is ASSUMED for that region (listed as such); same control-flow scan as //@outline
+            if assumed:
+                spans = sorted((region_span(text, r1, r2, occ) + (r1, call, why)) for (r1, r2, occ, call, why) in assumed)
+                for (s0, e0, r1, call, why) in reversed(spans):
+                    code = re.sub(r"//[^\n]*", "", text[s0:e0])
+                    code = re.sub(r'"(?:[^"\\\\]|\\\\.)*"', '""', code)
+                    if re.search(r"\b(break|continue|return)\b", code):
+                        raise LostAnchor("unit %s: assumed region /%s/ contains control flow" % (unit, r1))
+                    G.units[unit]["drops"].append("ASSUMED: lines %d-%d (starts `%s`) replaced by `%s` whose contract is assumed for this region: %s"
+                                                  % (first_line + text.count("\n", 0, s0), first_line + text.count("\n", 0, e0),
+                                                     " ".join(text[s0:e0].split())[:50], call, why))
+                    text = text[:s0] + call + "\n" * text[s0:e0].count("\n") + text[e0:]
             # statements dropped from the unit (`//@skip /re1/../re2/ [#k]`), after a syntactic non-interference scan:
             # no break/continue/return inside, no write to a variable listed in `protect=`
             if skips:
